@@ -3,7 +3,7 @@ from common import COMMON_TB
 PROP = {
     "bin": "c10",
     "prop_file": "Properties/C10.v",
-    "model_files": ["Storage/Crash.v", "Storage/CrashProofs.v", "Storage/GC.v"],
+    "model_files": ["Storage/Crash.v", "Storage/CrashProofs.v", "Storage/GC.v", "Storage/Proto.v", "Storage/ProtoProofs.v"],
     "level": "proof",
     "engine": "E1-storage",
     "level_text": "Proof (partial): ManagedDirectory bookkeeping (register-then-create, garbage_collect = delete managed \\ living and un-register) is modelled and "
@@ -15,7 +15,9 @@ PROP = {
                   "directory; no open of a segment file ever fails with NotFound. Crash part: recovered crash images + commit + GC must reach the same equality, except "
                   "class F5 (a file whose .managed.json registration was lost by the crash; classifier evaluated in Coq). Partial: that the SegmentMeta inventory covers "
                   "segments being written or merged at the instant GC lists living files (C10_inventory_covers_needed of DESIGN) is not modelled; it is covered by the "
-                  "runs only (collections forced while workers and merge threads are active).",
+                  "runs only (collections forced while workers and merge threads are active). "
+                  "C10_needed_files_kept_on_every_history (from the writer protocol model behind C01_all_histories): at every point of EVERY history and schedule the files of "
+                  "the published commit, of every committed / registered uncommitted segment and of every running job (segment under construction, merge) are in place and complete.",
     "level_note": "Trusted: as C01; the living set passed to GC is observed (files of meta.json at quiescence), not derived from a model of the inventory. No axioms.",
     "technique": "Coq set-algebra theorems over the GC bookkeeping + shared trace monitor; quiescence equality and GC model evaluated in Coq on real directories",
     "rule": "histories of 6-40 operations with 3 extra collections each; non-trivial = >= 2 commits and the final collection removed files; 3-10 crash images per history",
